@@ -1,2 +1,773 @@
-From Coq Require Import List ZArith Bool String Lia.
+(* C18 — proofs about the model of make_model_image (C18_Model.render).
+   Plan: (1) python-dict algebra: re-assigning the mapped parameters overwrites everything a
+   previous row wrote, so the parameter state used for a row is [rstate] (history free);
+   (2) the loop is a fold of [paint] = "add the row's contribution on its window";
+   (3) pixelwise, [paint] adds [term y x r]; (4) the window of overlap_slices(mode='trim') is
+   exactly {pixels of the image whose centre lies in the model_shape box};
+   (5) the property clauses follow from (3) by list algebra. *)
+From Coq Require Import List ZArith Bool String Lia Permutation.
 From PV Require Import lib.Cases C18_Model.
+Import ListNotations.
+Open Scope Z_scope.
+
+(* ------------------------------------------------------------------ *)
+(* 1. python dicts                                                     *)
+(* ------------------------------------------------------------------ *)
+Section Dict.
+Context {V : Type}.
+Implicit Types (s : dict V) (k : string) (v : V).
+
+Lemma dset_keys_incl k v s K : incl K (map fst s) -> incl K (map fst (dset k v s)).
+Proof.
+  intros H x Hx. specialize (H x Hx). clear Hx.
+  induction s as [|[k' v'] r IH]; [destruct H|]. cbn in *.
+  destruct (String.eqb k k') eqn:E.
+  - apply String.eqb_eq in E. subst. cbn. exact H.
+  - cbn. destruct H as [H|H]; [left; exact H|right; auto].
+Qed.
+
+Lemma dset_keys_in k v s x : In x (map fst s) -> In x (map fst (dset k v s)).
+Proof. intros H. apply (dset_keys_incl k v s [x]); [|left; reflexivity]. intros y [<-|[]]. exact H. Qed.
+
+Lemma dset_dset_same k v v' s : dset k v (dset k v' s) = dset k v s.
+Proof.
+  induction s as [|[k' w] r IH]; cbn.
+  - rewrite String.eqb_refl. reflexivity.
+  - destruct (String.eqb k k') eqn:E; cbn.
+    + rewrite String.eqb_refl. reflexivity.
+    + rewrite E, IH. reflexivity.
+Qed.
+
+Lemma dset_comm k1 v1 k2 v2 s :
+  k1 <> k2 -> In k1 (map fst s) -> dset k1 v1 (dset k2 v2 s) = dset k2 v2 (dset k1 v1 s).
+Proof.
+  intros Hne. induction s as [|[k w] r IH]; [intros []|]. intros Hin. cbn.
+  destruct (String.eqb k2 k) eqn:E2; destruct (String.eqb k1 k) eqn:E1; cbn.
+  - apply String.eqb_eq in E1, E2. congruence.
+  - apply String.eqb_eq in E2. subst k.
+    rewrite E1, String.eqb_refl. reflexivity.
+  - apply String.eqb_eq in E1. subst k.
+    rewrite String.eqb_refl, E2. reflexivity.
+  - rewrite E1, E2. f_equal. apply IH. cbn in Hin. destruct Hin as [Hin|Hin]; [|exact Hin].
+    apply String.eqb_neq in E1. congruence.
+Qed.
+
+Lemma dget_dset_same k v s : dget k (dset k v s) = Some v.
+Proof.
+  induction s as [|[k' w] r IH]; cbn.
+  - rewrite String.eqb_refl. reflexivity.
+  - destruct (String.eqb k k') eqn:E; cbn; [rewrite String.eqb_refl|rewrite E]; auto.
+Qed.
+
+Lemma dget_dset_other k k' v s : k' <> k -> dget k' (dset k v s) = dget k' s.
+Proof.
+  intros Hne. induction s as [|[k0 w] r IH]; cbn.
+  - assert (String.eqb k' k = false) as -> by (apply String.eqb_neq; exact Hne). reflexivity.
+  - destruct (String.eqb k k0) eqn:E; cbn.
+    + apply String.eqb_eq in E. subst k0.
+      assert (String.eqb k' k = false) as -> by (apply String.eqb_neq; exact Hne). reflexivity.
+    + destruct (String.eqb k' k0); auto.
+Qed.
+End Dict.
+
+Lemma smem_In s l : smem s l = true <-> In s l.
+Proof.
+  unfold smem. rewrite existsb_exists. split.
+  - intros [x [Hx E]]. apply String.eqb_eq in E. subst. exact Hx.
+  - intros H. exists s. split; [exact H|apply String.eqb_refl].
+Qed.
+
+(* ------------------------------------------------------------------ *)
+(* 2. assign: the mapped parameters are overwritten                    *)
+(* ------------------------------------------------------------------ *)
+Section Assign.
+Variable cols : list string.
+
+Lemma assign_keys_incl m r st K : incl K (map fst st) -> incl K (map fst (assign m cols r st)).
+Proof.
+  unfold assign. revert st. induction m as [|kv m IH]; intros st H; cbn; [exact H|].
+  apply IH, dset_keys_incl, H.
+Qed.
+
+Lemma assign_absorb_dset m r : forall st k v,
+  In k (map fst m) -> incl (map fst m) (map fst st) ->
+  assign m cols r (dset k v st) = assign m cols r st.
+Proof.
+  unfold assign. induction m as [|[k1 c1] m IH]; intros st k v Hin Hincl; [destruct Hin|].
+  cbn [fold_left fst snd].
+  destruct (String.eqb k k1) eqn:E.
+  - apply String.eqb_eq in E. subst k1. rewrite dset_dset_same. reflexivity.
+  - apply String.eqb_neq in E.
+    assert (Hk1 : In k1 (map fst st)) by (apply Hincl; left; reflexivity).
+    rewrite dset_comm by (congruence || assumption).
+    apply IH.
+    + cbn in Hin. destruct Hin as [Hin|Hin]; [congruence|exact Hin].
+    + apply dset_keys_incl. intros x Hx. apply Hincl. right. exact Hx.
+Qed.
+
+(* any sequence of assignments to mapped keys is overwritten by a later [assign m] *)
+Lemma assign_overwrite_gen m r r' : forall m2 st,
+  incl (map fst m2) (map fst m) -> incl (map fst m) (map fst st) ->
+  assign m cols r (assign m2 cols r' st) = assign m cols r st.
+Proof.
+  induction m2 as [|[k2 c2] m2 IH]; intros st H2 Hst; [reflexivity|].
+  unfold assign at 2. cbn [fold_left fst snd]. fold (assign m2 cols r' (dset k2 (rget cols r' c2) st)).
+  rewrite IH.
+  - apply assign_absorb_dset; [apply H2; left; reflexivity|exact Hst].
+  - intros x Hx. apply H2. right. exact Hx.
+  - apply dset_keys_incl, Hst.
+Qed.
+
+Lemma assign_overwrite m r r' st :
+  incl (map fst m) (map fst st) -> assign m cols r (assign m cols r' st) = assign m cols r st.
+Proof. intros H. apply assign_overwrite_gen; [apply incl_refl|exact H]. Qed.
+End Assign.
+
+Lemma valid_map_keys c t m : valid_map c t m = true -> incl (map fst m) (map fst (pinit c)).
+Proof.
+  unfold valid_map. rewrite forallb_forall. intros H k Hk.
+  apply in_map_iff in Hk. destruct Hk as [kv [<- Hkv]].
+  specialize (H kv Hkv). apply andb_true_iff in H. destruct H as [H _].
+  apply smem_In in H. exact H.
+Qed.
+
+(* ------------------------------------------------------------------ *)
+(* 3. images                                                           *)
+(* ------------------------------------------------------------------ *)
+Lemma mapi_from_length {A B} (f : Z -> A -> B) l : forall i, List.length (mapi_from f i l) = List.length l.
+Proof. induction l as [|a l IH]; intros i; cbn; [reflexivity|rewrite IH; reflexivity]. Qed.
+
+Lemma mapi_from_nth {A B} (f : Z -> A -> B) l : forall i k d d',
+  (k < List.length l)%nat -> nth k (mapi_from f i l) d = f (i + Z.of_nat k) (nth k l d').
+Proof.
+  induction l as [|a l IH]; intros i k d d' Hk; [cbn in Hk; lia|].
+  destruct k as [|k]; cbn [mapi_from nth].
+  - f_equal. lia.
+  - cbn in Hk. rewrite (IH (i + 1) k d d') by lia. f_equal. lia.
+Qed.
+
+Lemma nth_repeat_lt {A} (a d : A) n k : (k < n)%nat -> nth k (repeat a n) d = a.
+Proof. revert k; induction n as [|n IH]; intros k Hk; [lia|]. destruct k; cbn; [reflexivity|apply IH; lia]. Qed.
+
+Lemma rect_row ny nx img k : rect ny nx img -> (k < List.length img)%nat ->
+  List.length (nth k img []) = Z.to_nat nx.
+Proof.
+  intros [_ H] Hk. rewrite Forall_forall in H. apply H, nth_In, Hk.
+Qed.
+
+Lemma rect_zeros ny nx : rect ny nx (zeros ny nx).
+Proof.
+  unfold rect, zeros. split; [apply repeat_length|].
+  apply Forall_forall. intros r Hr. apply repeat_spec in Hr. subst. apply repeat_length.
+Qed.
+
+Lemma pixel_zeros ny nx y x : 0 <= y < ny -> 0 <= x < nx -> pixel (zeros ny nx) y x = 0.
+Proof.
+  intros Hy Hx. unfold pixel, zeros.
+  rewrite (nth_repeat_lt _ _ (Z.to_nat ny)) by lia.
+  apply nth_repeat_lt. lia.
+Qed.
+
+Definition in_w (w : window) (y x : Z) : bool :=
+  let '((ylo, yhi), (xlo, xhi)) := w in in_rng ylo yhi y && in_rng xlo xhi x.
+
+Lemma rect_add_window ny nx img w f : rect ny nx img -> rect ny nx (add_window img w f).
+Proof.
+  destruct w as [[ylo yhi] [xlo xhi]]. intros [Hl Hr]. unfold add_window. split.
+  - rewrite mapi_from_length. exact Hl.
+  - rewrite Forall_forall in *. intros r Hin.
+    apply In_nth with (d := []) in Hin. destruct Hin as [k [Hk <-]].
+    rewrite mapi_from_length in Hk.
+    rewrite (mapi_from_nth _ img 0 k [] []) by exact Hk.
+    assert (Hlen : List.length (nth k img []) = Z.to_nat nx) by (apply Hr, nth_In, Hk).
+    destruct (in_rng ylo yhi (0 + Z.of_nat k)); [rewrite mapi_from_length|]; exact Hlen.
+Qed.
+
+Lemma pixel_add_window ny nx img w f y x :
+  rect ny nx img -> 0 <= y < ny -> 0 <= x < nx ->
+  pixel (add_window img w f) y x = pixel img y x + (if in_w w y x then f y x else 0).
+Proof.
+  destruct w as [[ylo yhi] [xlo xhi]]. intros Hrect Hy Hx.
+  assert (Hky : (Z.to_nat y < List.length img)%nat) by (destruct Hrect as [-> _]; lia).
+  assert (Hkx : (Z.to_nat x < List.length (nth (Z.to_nat y) img []))%nat)
+    by (rewrite (rect_row ny nx) by assumption; lia).
+  unfold pixel, add_window, in_w.
+  rewrite (mapi_from_nth _ img 0 (Z.to_nat y) [] []) by exact Hky.
+  replace (0 + Z.of_nat (Z.to_nat y)) with y by lia.
+  destruct (in_rng ylo yhi y); cbn [andb].
+  - rewrite (mapi_from_nth _ _ 0 (Z.to_nat x) 0 0) by exact Hkx.
+    replace (0 + Z.of_nat (Z.to_nat x)) with x by lia.
+    destruct (in_rng xlo xhi x); lia.
+  - lia.
+Qed.
+
+(* two rectangular images with the same pixels are equal *)
+Lemma image_ext ny nx a b : rect ny nx a -> rect ny nx b ->
+  (forall y x, 0 <= y < ny -> 0 <= x < nx -> pixel a y x = pixel b y x) -> a = b.
+Proof.
+  intros Ha Hb H. apply (nth_ext a b [] []).
+  - destruct Ha as [-> _], Hb as [-> _]. reflexivity.
+  - intros k Hk.
+    assert (Hk' : (k < List.length b)%nat) by (destruct Ha as [Ea _], Hb as [Eb _]; lia).
+    assert (Hkz : 0 <= Z.of_nat k < ny) by (destruct Ha as [Ea _]; lia).
+    apply (nth_ext _ _ 0 0).
+    + rewrite (rect_row ny nx a), (rect_row ny nx b) by assumption. reflexivity.
+    + intros j Hj. rewrite (rect_row ny nx a) in Hj by assumption.
+      specialize (H (Z.of_nat k) (Z.of_nat j) Hkz ltac:(lia)).
+      unfold pixel in H. rewrite !Nat2Z.id in H. exact H.
+Qed.
+
+Lemma combine_nth_lt {A B} (a : list A) (b : list B) k da db :
+  (k < List.length a)%nat -> (k < List.length b)%nat ->
+  nth k (combine a b) (da, db) = (nth k a da, nth k b db).
+Proof.
+  revert b k; induction a as [|x a IH]; intros [|y b] k Ha Hb; cbn in *; try lia.
+  destruct k; [reflexivity|apply IH; lia].
+Qed.
+
+Section Zip.
+Variable op : Z -> Z -> Z.
+Definition zip_image (a b : image) : image :=
+  map (fun ab => map (fun vw => op (fst vw) (snd vw)) (combine (fst ab) (snd ab))) (combine a b).
+
+Lemma rect_zip ny nx a b : rect ny nx a -> rect ny nx b -> rect ny nx (zip_image a b).
+Proof.
+  intros Ha Hb. unfold zip_image. split.
+  - rewrite map_length, combine_length. destruct Ha as [-> _], Hb as [-> _]. lia.
+  - apply Forall_forall. intros r Hr. apply in_map_iff in Hr. destruct Hr as [[ra rb] [<- Hin]].
+    cbn [fst snd]. rewrite map_length, combine_length.
+    destruct Ha as [_ Ha], Hb as [_ Hb]. rewrite Forall_forall in Ha, Hb.
+    rewrite (Ha ra), (Hb rb); [lia| |].
+    + apply in_combine_r in Hin. exact Hin.
+    + apply in_combine_l in Hin. exact Hin.
+Qed.
+
+Lemma pixel_zip ny nx a b y x : rect ny nx a -> rect ny nx b -> 0 <= y < ny -> 0 <= x < nx ->
+  pixel (zip_image a b) y x = op (pixel a y x) (pixel b y x).
+Proof.
+  intros Ha Hb Hy Hx. unfold pixel, zip_image.
+  assert (Hka : (Z.to_nat y < List.length a)%nat) by (destruct Ha as [-> _]; lia).
+  assert (Hkb : (Z.to_nat y < List.length b)%nat) by (destruct Hb as [-> _]; lia).
+  set (g := fun ab : list Z * list Z => map (fun vw => op (fst vw) (snd vw)) (combine (fst ab) (snd ab))).
+  assert (E : nth (Z.to_nat y) (map g (combine a b)) [] = g (nth (Z.to_nat y) a [], nth (Z.to_nat y) b [])).
+  { rewrite <- (combine_nth_lt a b _ [] []) by assumption.
+    rewrite (nth_indep _ [] (g ([], []))) by (rewrite map_length, combine_length; lia).
+    apply map_nth. }
+  rewrite E. unfold g. cbn [fst snd].
+  set (ra := nth (Z.to_nat y) a []). set (rb := nth (Z.to_nat y) b []).
+  assert (Hxa : (Z.to_nat x < List.length ra)%nat) by (unfold ra; rewrite (rect_row ny nx) by assumption; lia).
+  assert (Hxb : (Z.to_nat x < List.length rb)%nat) by (unfold rb; rewrite (rect_row ny nx) by assumption; lia).
+  set (h := fun vw : Z * Z => op (fst vw) (snd vw)).
+  rewrite (nth_indep _ 0 (h (0, 0))) by (rewrite map_length, combine_length; lia).
+  rewrite map_nth, combine_nth_lt by assumption. reflexivity.
+Qed.
+End Zip.
+
+Lemma sub_image_zip a b : sub_image a b = zip_image Z.sub a b.
+Proof. reflexivity. Qed.
+Lemma img_add_zip a b : img_add a b = zip_image Z.add a b.
+Proof. reflexivity. Qed.
+
+(* ------------------------------------------------------------------ *)
+(* 4. the window of overlap_slices(mode='trim')                        *)
+(* ------------------------------------------------------------------ *)
+Lemma cdiv16_le a k : cdiv a 16 <= k <-> a <= 16 * k.
+Proof.
+  unfold cdiv.
+  pose proof (Z.div_mod (- a) 16 ltac:(lia)) as E.
+  pose proof (Z.mod_pos_bound (- a) 16 ltac:(lia)) as B.
+  lia.
+Qed.
+
+(* [e_min pos8 sh <= k < e_min pos8 sh + sh] iff the centre of pixel k lies in the box *)
+Lemma e_min_box pos8 sh k : e_min pos8 sh <= k < e_min pos8 sh + sh <-> in_box pos8 sh k.
+Proof.
+  unfold in_box, e_min.
+  pose proof (cdiv16_le (2 * pos8 - 8 * sh) k) as H1.
+  pose proof (cdiv16_le (2 * pos8 - 8 * sh) (k - sh)) as H2.
+  lia.
+Qed.
+
+Lemma in_boxb_spec pos8 sh k : in_boxb pos8 sh k = true <-> in_box pos8 sh k.
+Proof. unfold in_boxb, in_box. lia. Qed.
+
+Lemma in_rng_spec lo hi i : in_rng lo hi i = true <-> lo <= i < hi.
+Proof. unfold in_rng. lia. Qed.
+
+Definition box_hit (ny nx : Z) (sh : Z * Z) (y8 x8 y x : Z) : Prop :=
+  0 <= y < ny /\ 0 <= x < nx /\ in_box y8 (fst sh) y /\ in_box x8 (snd sh) x.
+
+Lemma overlap_some ny nx sh y8 x8 w :
+  overlap_slices ny nx sh y8 x8 = Some w ->
+  forall y x, in_w w y x = true <-> box_hit ny nx sh y8 x8 y x.
+Proof.
+  destruct sh as [shy shx]. unfold overlap_slices, box_hit. cbn [fst snd].
+  intros H y x. rewrite <- !e_min_box.
+  set (ymin := e_min y8 shy) in *. set (xmin := e_min x8 shx) in *.
+  destruct (_ || _ || (_ || _)) eqn:E1; [discriminate|].
+  destruct ((ny <=? ymin) || (nx <=? xmin)) eqn:E2; [discriminate|].
+  destruct (_ || _) eqn:E3 in H; [discriminate|].
+  injection H as <-. unfold in_w. rewrite andb_true_iff, !in_rng_spec. lia.
+Qed.
+
+Lemma overlap_none ny nx sh y8 x8 :
+  overlap_slices ny nx sh y8 x8 = None -> forall y x, ~ box_hit ny nx sh y8 x8 y x.
+Proof.
+  destruct sh as [shy shx]. unfold overlap_slices, box_hit. cbn [fst snd].
+  intros H y x. rewrite <- !e_min_box.
+  set (ymin := e_min y8 shy) in *. set (xmin := e_min x8 shx) in *.
+  destruct (_ || _ || (_ || _)) eqn:E1; [lia|].
+  destruct ((ny <=? ymin) || (nx <=? xmin)) eqn:E2; [lia|].
+  destruct (_ || _) eqn:E3 in H; [|discriminate]. lia.
+Qed.
+
+(* a returned window is never empty: some pixel of the image is covered (for a
+   non-negative model_shape; a negative entry in a 2-D model_shape column gives an empty
+   slice that the code "renders" without effect) *)
+Lemma overlap_some_nonempty ny nx sh y8 x8 w :
+  0 <= ny -> 0 <= nx -> 0 <= fst sh -> 0 <= snd sh ->
+  overlap_slices ny nx sh y8 x8 = Some w -> exists y x, box_hit ny nx sh y8 x8 y x.
+Proof.
+  intros Hny Hnx Hsy Hsx H. pose proof (overlap_some _ _ _ _ _ _ H) as Hw.
+  destruct sh as [shy shx]. cbn [fst snd] in Hsy, Hsx. unfold overlap_slices in H.
+  set (ymin := e_min y8 shy) in *. set (xmin := e_min x8 shx) in *.
+  destruct (_ || _ || (_ || _)) eqn:E1; [discriminate|].
+  destruct ((ny <=? ymin) || (nx <=? xmin)) eqn:E2; [discriminate|].
+  destruct (_ || _) eqn:E3 in H; [discriminate|].
+  injection H as <-.
+  exists (Z.max 0 ymin), (Z.max 0 xmin). apply Hw.
+  unfold in_w. rewrite andb_true_iff, !in_rng_spec. lia.
+Qed.
+
+(* ------------------------------------------------------------------ *)
+(* 5. the loop                                                         *)
+(* ------------------------------------------------------------------ *)
+Lemma zsum_app a b : zsum (a ++ b) = zsum a + zsum b.
+Proof. induction a as [|x a IH]; cbn; [reflexivity|]. unfold zsum in *. cbn. rewrite IH. lia. Qed.
+
+Lemma zsum_map_perm {A} (f : A -> Z) l l' : Permutation l l' -> zsum (map f l) = zsum (map f l').
+Proof.
+  induction 1 as [|x l l' _ IH|x y l|l l' l'' _ IH1 _ IH2]; unfold zsum in *; cbn; lia.
+Qed.
+
+Section Loop.
+Variable ev : pstate -> Z -> Z -> Z.
+Variable bbox_shape : option Z -> pstate -> Z * Z.
+Variable ev_unit : pstate -> option Z.
+
+Notation rstate := (rstate).
+Notation shape_of := (shape_of bbox_shape).
+Notation term := (term ev bbox_shape).
+Notation in_windowb := (in_windowb bbox_shape).
+Notation in_window := (in_window bbox_shape).
+Notation overlaps := (overlaps bbox_shape).
+Notation render := (render ev bbox_shape ev_unit).
+Notation units_uniform := (units_uniform ev_unit).
+
+(* one iteration of the loop, as a function of the image only *)
+Definition paint (c : config) (t : table) (img : image) (r : row) : image :=
+  match overlap_slices (ny c) (nx c) (shape_of c t r) (row_y8 c t r) (row_x8 c t r) with
+  | None => img
+  | Some w => add_window img w (fun y x => ev (rstate c t r) y x + bkg_of t r)
+  end.
+Definition image_of (c : config) (t : table) (l : list row) : image :=
+  fold_left (paint c t) l (zeros (ny c) (nx c)).
+Definition unit_of (c : config) (t : table) (l : list row) : option Z :=
+  match l with [] => None | r :: _ => ev_unit (rstate c t r) end.
+
+Lemma in_windowb_spec c t r y x : in_windowb c t r y x = true <-> in_window c t r y x.
+Proof.
+  unfold C18_Model.in_windowb, C18_Model.in_window.
+  rewrite !andb_true_iff, !in_rng_spec, !in_boxb_spec. tauto.
+Qed.
+
+Lemma rect_paint c t img r : rect (ny c) (nx c) img -> rect (ny c) (nx c) (paint c t img r).
+Proof. intros H. unfold paint. destruct (overlap_slices _ _ _ _ _); [apply rect_add_window|]; exact H. Qed.
+
+Lemma rect_fold_paint c t l : forall img, rect (ny c) (nx c) img -> rect (ny c) (nx c) (fold_left (paint c t) l img).
+Proof. induction l as [|r l IH]; intros img H; cbn; [exact H|apply IH, rect_paint, H]. Qed.
+
+Lemma rect_image_of c t l : rect (ny c) (nx c) (image_of c t l).
+Proof. apply rect_fold_paint, rect_zeros. Qed.
+
+Lemma pixel_paint c t img r y x : rect (ny c) (nx c) img -> 0 <= y < ny c -> 0 <= x < nx c ->
+  pixel (paint c t img r) y x = pixel img y x + term c t y x r.
+Proof.
+  intros Hrect Hy Hx. unfold paint, C18_Model.term.
+  destruct (overlap_slices _ _ _ _ _) as [w|] eqn:E.
+  - rewrite (pixel_add_window (ny c) (nx c)) by assumption.
+    pose proof (overlap_some _ _ _ _ _ _ E y x) as Hw.
+    assert (Hb : in_w w y x = in_windowb c t r y x).
+    { apply eq_true_iff_eq. rewrite Hw, in_windowb_spec. reflexivity. }
+    rewrite Hb. reflexivity.
+  - pose proof (overlap_none _ _ _ _ _ E y x) as Hn.
+    destruct (in_windowb c t r y x) eqn:Eb; [|lia].
+    apply in_windowb_spec in Eb. contradiction.
+Qed.
+
+Lemma pixel_fold_paint c t l y x : forall img, rect (ny c) (nx c) img -> 0 <= y < ny c -> 0 <= x < nx c ->
+  pixel (fold_left (paint c t) l img) y x = pixel img y x + zsum (map (term c t y x) l).
+Proof.
+  induction l as [|r l IH]; intros img Hrect Hy Hx; cbn [fold_left map].
+  - unfold zsum. cbn. lia.
+  - rewrite IH by (try apply rect_paint; assumption).
+    rewrite pixel_paint by assumption. unfold zsum. cbn. lia.
+Qed.
+
+Lemma pixel_image_of c t l y x : 0 <= y < ny c -> 0 <= x < nx c ->
+  pixel (image_of c t l) y x = zsum (map (term c t y x) l).
+Proof.
+  intros Hy Hx. unfold image_of. rewrite pixel_fold_paint by (try apply rect_zeros; assumption).
+  rewrite pixel_zeros by assumption. lia.
+Qed.
+
+(* ----- the loop state: the model copy never leaks parameters between rows ----- *)
+Definition good (c : config) (t : table) (st : pstate) : Prop :=
+  incl (map fst (build_map c t)) (map fst st) /\
+  forall r, assign (build_map c t) (colnames t) r st = rstate c t r.
+
+Lemma good_init c t : valid_map c t (build_map c t) = true -> good c t (pinit c).
+Proof. intros H. split; [apply valid_map_keys with (t := t), H|reflexivity]. Qed.
+
+Lemma good_step c t st r : good c t st -> good c t (assign (build_map c t) (colnames t) r st).
+Proof.
+  intros [Hk Hs]. split.
+  - apply assign_keys_incl, Hk.
+  - intros r'. rewrite assign_overwrite by exact Hk. apply Hs.
+Qed.
+
+Definition acc_img (a : nat * pstate * image * option Z) : image := snd (fst a).
+Definition acc_unit (a : nat * pstate * image * option Z) : option Z := snd a.
+
+Lemma step_eq c t pre suf r st img u : rows t = pre ++ r :: suf -> good c t st ->
+  step ev bbox_shape ev_unit c t (build_map c t) (map rshape (rows t))
+       (if has_bkg_col t then map rbkg (rows t) else repeat 0 (List.length (rows t)))
+       (List.length pre, st, img, u) r
+  = (S (List.length pre), rstate c t r, paint c t img r,
+     if Nat.eqb (List.length pre) 0 then ev_unit (rstate c t r) else u).
+Proof.
+  intros Hrows Hgood.
+  assert (Hst : assign (build_map c t) (colnames t) r st = rstate c t r) by apply Hgood.
+  assert (Hshape : (if has_shape_col t then nth (List.length pre) (map rshape (rows t)) (0, 0)
+                    else match mshape c with
+                         | None => bbox_shape (bfactor c) (rstate c t r)
+                         | Some s => s end) = shape_of c t r).
+  { unfold C18_Model.shape_of. destruct (has_shape_col t); [|reflexivity].
+    rewrite Hrows, map_app, app_nth2 by (rewrite map_length; lia).
+    rewrite map_length, Nat.sub_diag. reflexivity. }
+  assert (Hbkg : nth (List.length pre)
+                   (if has_bkg_col t then map rbkg (rows t) else repeat 0 (List.length (rows t))) 0
+                 = bkg_of t r).
+  { unfold bkg_of. destruct (has_bkg_col t).
+    - rewrite Hrows, map_app, app_nth2 by (rewrite map_length; lia).
+      rewrite map_length, Nat.sub_diag. reflexivity.
+    - apply nth_repeat_lt. rewrite Hrows, app_length. cbn. lia. }
+  unfold step. cbv zeta. rewrite Hst, Hshape, Hbkg.
+  fold (row_y8 c t r). fold (row_x8 c t r). unfold paint.
+  destruct (overlap_slices (ny c) (nx c) (shape_of c t r) (row_y8 c t r) (row_x8 c t r)); reflexivity.
+Qed.
+
+Lemma fold_step c t :
+  forall suf pre st img u, rows t = pre ++ suf -> good c t st ->
+  let a := fold_left (step ev bbox_shape ev_unit c t (build_map c t) (map rshape (rows t))
+                        (if has_bkg_col t then map rbkg (rows t) else repeat 0 (List.length (rows t))))
+                     suf (List.length pre, st, img, u) in
+  acc_img a = fold_left (paint c t) suf img /\
+  acc_unit a = match pre, suf with [], r :: _ => ev_unit (rstate c t r) | _, _ => u end.
+Proof.
+  induction suf as [|r suf IH]; intros pre st img u Hrows Hgood.
+  - cbn. split; [reflexivity|destruct pre; reflexivity].
+  - cbn [fold_left]. rewrite (step_eq c t pre suf r st img u Hrows Hgood).
+    assert (Hrows' : rows t = (pre ++ [r]) ++ suf) by (rewrite <- app_assoc; exact Hrows).
+    assert (Hgood' : good c t (rstate c t r)).
+    { destruct Hgood as [Hk Hs]. rewrite <- (Hs r). apply good_step. split; assumption. }
+    assert (Hlen : S (List.length pre) = List.length (pre ++ [r])) by (rewrite app_length; cbn; lia).
+    rewrite Hlen.
+    specialize (IH (pre ++ [r]) (rstate c t r) (paint c t img r)
+                   (if Nat.eqb (List.length pre) 0 then ev_unit (rstate c t r) else u) Hrows' Hgood').
+    cbv zeta in IH. destruct IH as [IH1 IH2]. split; [exact IH1|].
+    rewrite IH2. destruct pre as [|p pre]; cbn; [reflexivity|].
+    destruct (pre ++ [r]) eqn:Ep; [destruct pre; discriminate|reflexivity].
+Qed.
+
+(* the whole function in closed form *)
+Lemma render_eq c t :
+  render c t = if accepted c t then Img (unit_of c t (rows t)) (image_of c t (rows t)) else Err.
+Proof.
+  unfold C18_Model.render, accepted. cbv zeta.
+  destruct (valid_map c t (build_map c t)) eqn:Ev; cbn [negb andb]; [|reflexivity].
+  destruct (negb (has_shape_col t) && negb (has_bbox c) && match mshape c with None => true | Some _ => false end);
+    cbn [negb]; [reflexivity|].
+  pose proof (fold_step c t (rows t) [] (pinit c)
+                (zeros (ny c) (nx c)) None eq_refl (good_init c t Ev)) as H.
+  cbv zeta in H. cbn [List.length] in H.
+  destruct (fold_left _ (rows t) _) as [[[i st] img] u].
+  unfold acc_img, acc_unit in H. cbn [fst snd] in H. destruct H as [-> ->].
+  unfold image_of, unit_of. destruct (rows t); reflexivity.
+Qed.
+
+Lemma render_with_rows c t l :
+  render c (with_rows t l) = if accepted c t then Img (unit_of c t l) (image_of c t l) else Err.
+Proof. rewrite render_eq. reflexivity. Qed.
+
+Lemma with_rows_id t : with_rows t (rows t) = t.
+Proof. destruct t; reflexivity. Qed.
+
+(* ------------------------------------------------------------------ *)
+(* 6. the property clauses                                             *)
+(* ------------------------------------------------------------------ *)
+
+(* accepted / rejected *)
+Lemma render_err_iff c t : render c t = Err <-> accepted c t = false.
+Proof. rewrite render_eq. destruct (accepted c t); split; congruence. Qed.
+
+Lemma accepted_spec c t : accepted c t = true <->
+  (forall k col, In (k, col) (build_map c t) -> In k (pnames c) /\ In col (colnames t)) /\
+  (has_shape_col t = true \/ has_bbox c = true \/ mshape c <> None).
+Proof.
+  unfold accepted, valid_map. rewrite andb_true_iff, forallb_forall, negb_true_iff. split.
+  - intros [H1 H2]. split.
+    + intros k col Hin. specialize (H1 _ Hin). cbn in H1. apply andb_true_iff in H1.
+      rewrite !smem_In in H1. exact H1.
+    + destruct (has_shape_col t); [left; reflexivity|]. destruct (has_bbox c); [right; left; reflexivity|].
+      destruct (mshape c); [right; right; discriminate|discriminate].
+  - intros [H1 H2]. split.
+    + intros [k col] Hin. cbn. rewrite andb_true_iff, !smem_In. apply H1, Hin.
+    + destruct (has_shape_col t), (has_bbox c), (mshape c); cbn; try reflexivity.
+      destruct H2 as [H2|[H2|H2]]; congruence.
+Qed.
+
+Lemma render_rect c t u img : render c t = Img u img -> rect (ny c) (nx c) img.
+Proof.
+  rewrite render_eq. destruct (accepted c t); [|discriminate]. intros [= _ <-]. apply rect_image_of.
+Qed.
+
+(* superposition *)
+Lemma superposition c t u img : render c t = Img u img ->
+  forall y x, 0 <= y < ny c -> 0 <= x < nx c -> pixel img y x = zsum (map (term c t y x) (rows t)).
+Proof.
+  rewrite render_eq. destruct (accepted c t); [|discriminate]. intros [= _ <-] y x Hy Hx.
+  apply pixel_image_of; assumption.
+Qed.
+
+(* row order *)
+Lemma image_of_perm c t l l' : Permutation l l' -> image_of c t l = image_of c t l'.
+Proof.
+  intros HP. apply (image_ext (ny c) (nx c)); try apply rect_image_of.
+  intros y x Hy Hx. rewrite !pixel_image_of by assumption. apply zsum_map_perm, HP.
+Qed.
+
+Lemma same_frame t t' : colnames t' = colnames t -> has_shape_col t' = has_shape_col t ->
+  has_bkg_col t' = has_bkg_col t -> t' = with_rows t (rows t').
+Proof. destruct t, t'; cbn; intros -> -> ->; reflexivity. Qed.
+
+Lemma row_order c t t' u img :
+  colnames t' = colnames t -> has_shape_col t' = has_shape_col t -> has_bkg_col t' = has_bkg_col t ->
+  Permutation (rows t) (rows t') ->
+  render c t = Img u img ->
+  exists u', render c t' = Img u' img /\ (units_uniform c t -> u' = u).
+Proof.
+  intros H1 H2 H3 HP. rewrite (same_frame t t' H1 H2 H3), render_with_rows, render_eq.
+  destruct (accepted c t); [|discriminate]. intros [= <- <-].
+  exists (unit_of c t (rows t')). split.
+  - f_equal. symmetry. apply image_of_perm, HP.
+  - intros HU. unfold unit_of. destruct (rows t') as [|r' l'] eqn:E'.
+    + apply Permutation_sym, Permutation_nil in HP. rewrite HP. reflexivity.
+    + destruct (rows t) as [|r l] eqn:E; [apply Permutation_nil in HP; discriminate|].
+      apply HU; rewrite E; [|left; reflexivity].
+      apply (Permutation_in r' (Permutation_sym HP)). left. reflexivity.
+Qed.
+
+(* concatenation *)
+Lemma image_of_app c t a b : image_of c t (a ++ b) = img_add (image_of c t a) (image_of c t b).
+Proof.
+  apply (image_ext (ny c) (nx c)).
+  - apply rect_image_of.
+  - rewrite img_add_zip. apply rect_zip; apply rect_image_of.
+  - intros y x Hy Hx. rewrite img_add_zip.
+    rewrite (pixel_zip Z.add (ny c) (nx c)) by (try apply rect_image_of; assumption).
+    rewrite !pixel_image_of by assumption. rewrite map_app. apply zsum_app.
+Qed.
+
+Lemma concat c t a b u img : render c (with_rows t (a ++ b)) = Img u img ->
+  exists ua ia ub ib, render c (with_rows t a) = Img ua ia /\ render c (with_rows t b) = Img ub ib /\
+                      img = img_add ia ib.
+Proof.
+  rewrite !render_with_rows. destruct (accepted c t); [|discriminate]. intros [= _ <-].
+  do 4 eexists. split; [reflexivity|]. split; [reflexivity|]. apply image_of_app.
+Qed.
+
+(* rows that do not overlap *)
+Lemma overlaps_false_term c t r : overlaps c t r = false -> forall y x, term c t y x r = 0.
+Proof.
+  unfold C18_Model.overlaps, C18_Model.term. intros H y x.
+  destruct (overlap_slices _ _ _ _ _) eqn:E; [discriminate|].
+  destruct (in_windowb c t r y x) eqn:Eb; [|reflexivity].
+  apply in_windowb_spec in Eb. exfalso. exact (overlap_none _ _ _ _ _ E y x Eb).
+Qed.
+
+Lemma overlaps_iff c t r : 0 <= ny c -> 0 <= nx c -> 0 <= fst (shape_of c t r) -> 0 <= snd (shape_of c t r) ->
+  (overlaps c t r = true <-> exists y x, in_window c t r y x).
+Proof.
+  intros Hny Hnx Hsy Hsx.
+  unfold C18_Model.overlaps. destruct (overlap_slices _ _ _ _ _) as [w|] eqn:E; split.
+  - intros _. exact (overlap_some_nonempty _ _ _ _ _ _ Hny Hnx Hsy Hsx E).
+  - reflexivity.
+  - discriminate.
+  - intros [y [x H]]. exfalso. exact (overlap_none _ _ _ _ _ E y x H).
+Qed.
+
+Lemma zsum_filter_terms c t y x l :
+  zsum (map (term c t y x) (filter (overlaps c t) l)) = zsum (map (term c t y x) l).
+Proof.
+  induction l as [|r l IH]; [reflexivity|]. cbn [filter].
+  destruct (overlaps c t r) eqn:E; unfold zsum in *; cbn; [rewrite IH; reflexivity|].
+  rewrite (overlaps_false_term c t r E). lia.
+Qed.
+
+Lemma image_of_filter c t l : image_of c t (filter (overlaps c t) l) = image_of c t l.
+Proof.
+  apply (image_ext (ny c) (nx c)); try apply rect_image_of.
+  intros y x Hy Hx. rewrite !pixel_image_of by assumption. apply zsum_filter_terms.
+Qed.
+
+Lemma skipped c t u img : render c t = Img u img ->
+  exists u', render c (with_rows t (filter (overlaps c t) (rows t))) = Img u' img /\
+             (units_uniform c t -> filter (overlaps c t) (rows t) <> [] -> u' = u).
+Proof.
+  rewrite render_with_rows, render_eq. destruct (accepted c t); [|discriminate]. intros [= <- <-].
+  eexists. split; [rewrite image_of_filter; reflexivity|].
+  intros HU Hne. unfold unit_of.
+  destruct (filter (overlaps c t) (rows t)) as [|r' l'] eqn:E'; [congruence|].
+  assert (Hin : In r' (rows t)).
+  { assert (H : In r' (filter (overlaps c t) (rows t))) by (rewrite E'; left; reflexivity).
+    apply filter_In in H. apply H. }
+  destruct (rows t) as [|r l] eqn:E; [destruct Hin|].
+  apply HU; rewrite E; [exact Hin|left; reflexivity].
+Qed.
+
+Lemma skipped_insert c t a r b u img : overlaps c t r = false ->
+  render c (with_rows t (a ++ r :: b)) = Img u img ->
+  exists u', render c (with_rows t (a ++ b)) = Img u' img.
+Proof.
+  intros Hno. rewrite !render_with_rows. destruct (accepted c t); [|discriminate]. intros [= _ <-].
+  eexists. f_equal.
+  apply (image_ext (ny c) (nx c)); try apply rect_image_of.
+  intros y x Hy Hx. rewrite !pixel_image_of by assumption.
+  rewrite !map_app, !zsum_app. cbn [map].
+  change (zsum (term c t y x r :: map (term c t y x) b))
+    with (term c t y x r + zsum (map (term c t y x) b)).
+  rewrite (overlaps_false_term c t r Hno). lia.
+Qed.
+
+(* units *)
+Lemma units c t u img : render c t = Img u img -> units_uniform c t ->
+  forall r, In r (rows t) -> u = ev_unit (rstate c t r).
+Proof.
+  rewrite render_eq. destruct (accepted c t); [|discriminate]. intros [= <- _] HU r Hin.
+  unfold unit_of. destruct (rows t) as [|r0 l] eqn:E; [destruct Hin|].
+  apply HU; rewrite E; [left; reflexivity|exact Hin].
+Qed.
+
+Lemma units_first c t u img r l : render c t = Img u img -> rows t = r :: l -> u = ev_unit (rstate c t r).
+Proof.
+  rewrite render_eq. destruct (accepted c t); [|discriminate]. intros [= <- _] ->. reflexivity.
+Qed.
+
+(* residual *)
+Lemma residual_spec c t data res : rect (ny c) (nx c) data ->
+  residual ev bbox_shape ev_unit c t data = Some res ->
+  rect (ny c) (nx c) res /\
+  exists u img, render c t = Img u img /\
+    forall y x, 0 <= y < ny c -> 0 <= x < nx c ->
+      pixel res y x = pixel data y x - pixel img y x /\
+      pixel res y x = pixel data y x - zsum (map (term c t y x) (rows t)).
+Proof.
+  intros Hd. unfold residual. destruct (render c t) as [|u img] eqn:E; [discriminate|]. intros [= <-].
+  pose proof (render_rect c t u img E) as Hi. rewrite sub_image_zip. split.
+  - apply rect_zip; assumption.
+  - exists u, img. split; [reflexivity|]. intros y x Hy Hx.
+    rewrite (pixel_zip Z.sub (ny c) (nx c)) by assumption.
+    rewrite (superposition c t u img E y x Hy Hx). split; reflexivity.
+Qed.
+
+Lemma residual_none_iff c t data : residual ev bbox_shape ev_unit c t data = None <-> render c t = Err.
+Proof. unfold residual. destruct (render c t); split; congruence. Qed.
+
+(* translation covariance *)
+Lemma in_box_shift pos8 sh k d : in_box (pos8 + 8 * d) sh (k + d) <-> in_box pos8 sh k.
+Proof. unfold in_box. lia. Qed.
+
+Lemma shift c t c' t' (f : row -> row) dy dx :
+  rows t' = map f (rows t) ->
+  (forall r, In r (rows t) ->
+     row_y8 c' t' (f r) = row_y8 c t r + 8 * dy /\ row_x8 c' t' (f r) = row_x8 c t r + 8 * dx /\
+     shape_of c' t' (f r) = shape_of c t r /\ bkg_of t' (f r) = bkg_of t r /\
+     forall y x, ev (rstate c' t' (f r)) (y + dy) (x + dx) = ev (rstate c t r) y x) ->
+  forall u img u' img', render c t = Img u img -> render c' t' = Img u' img' ->
+  forall y x, 0 <= y < ny c -> 0 <= x < nx c -> 0 <= y + dy < ny c' -> 0 <= x + dx < nx c' ->
+    pixel img' (y + dy) (x + dx) = pixel img y x.
+Proof.
+  intros Hrows Hf u img u' img' E E' y x Hy Hx Hy' Hx'.
+  rewrite (superposition c t u img E y x Hy Hx), (superposition c' t' u' img' E' _ _ Hy' Hx').
+  rewrite Hrows, map_map. f_equal. apply map_ext_in. intros r Hin.
+  destruct (Hf r Hin) as (Ey & Ex & Es & Eb & Ee).
+  unfold C18_Model.term.
+  assert (Hw : in_windowb c' t' (f r) (y + dy) (x + dx) = in_windowb c t r y x).
+  { apply eq_true_iff_eq. rewrite !in_windowb_spec. unfold C18_Model.in_window.
+    rewrite Ey, Ex, Es, !in_box_shift. tauto. }
+  rewrite Hw, Ee, Eb. reflexivity.
+Qed.
+
+End Loop.
+
+(* ------------------------------------------------------------------ *)
+(* 7. the polynomial test model is translation covariant; witnesses    *)
+(* ------------------------------------------------------------------ *)
+Lemma poly_ev_shift mode st st' dy dx :
+  pval 0 st' = pval 0 st -> pval 3 st' = pval 3 st -> pval 4 st' = pval 4 st -> pval 5 st' = pval 5 st ->
+  pval 1 st' = pval 1 st + 8 * dx -> pval 2 st' = pval 2 st + 8 * dy ->
+  forall y x, poly_ev mode st' (y + dy) (x + dx) = poly_ev mode st y x.
+Proof.
+  intros H0 H3 H4 H5 H1 H2 y x. unfold poly_ev. f_equal. f_equal.
+  apply flat_map_ext. intros oy. apply map_ext. intros ox.
+  unfold poly_point. rewrite H0, H1, H2, H3, H4, H5.
+  replace (8 * (x + dx) + ox - (pval 1 st + 8 * dx)) with (8 * x + ox - pval 1 st) by lia.
+  replace (8 * (y + dy) + oy - (pval 2 st + 8 * dy)) with (8 * y + oy - pval 2 st) by lia.
+  reflexivity.
+Qed.
+
+Module Witness.
+Definition names : list string := ["flux"; "x_0"; "y_0"; "tx"; "ty"; "q"; "r"]%string.
+Definition cfg (ny nx : Z) (ms : option (Z * Z)) : config :=
+  {| ny := ny; nx := nx; pinit := combine names [8; 0; 0; 8; -8; 4; 8]; has_bbox := true;
+     x_name := "x_0"; y_name := "y_0"; pmap := None; mshape := ms; bfactor := None |}.
+Definition tbl (l : list (list Z)) : table :=
+  {| colnames := ["x_0"; "y_0"; "flux"]%string; has_shape_col := false; has_bkg_col := true;
+     rows := map (fun v => {| rvals := v; rshape := (0, 0); rbkg := 65536 |}) l |}.
+(* shift a row by (dy, dx) pixels: x_0 is column 0, y_0 column 1 *)
+Definition shift_row (dy dx : Z) (r : row) : row :=
+  match rvals r with
+  | x :: y :: rest => {| rvals := x + 8 * dx :: y + 8 * dy :: rest; rshape := rshape r; rbkg := rbkg r |}
+  | _ => r
+  end.
+(* two sources, one of them clipped by the lower-left corner; 3x3 windows; 5x6 image *)
+Definition c1 := cfg 5 6 (Some (3, 3)).
+Definition t1 := tbl [[4; 0; 16]; [28; 20; -8]].
+Definition t1s := with_rows t1 (map (shift_row 1 2) (rows t1)).
+End Witness.
+
+Lemma witness_shift_hyps :
+  forall r, In r (rows Witness.t1) ->
+     row_y8 (with_shape Witness.c1 7 9) Witness.t1s (Witness.shift_row 1 2 r) = row_y8 Witness.c1 Witness.t1 r + 8 * 1 /\
+     row_x8 (with_shape Witness.c1 7 9) Witness.t1s (Witness.shift_row 1 2 r) = row_x8 Witness.c1 Witness.t1 r + 8 * 2 /\
+     shape_of poly_bbox (with_shape Witness.c1 7 9) Witness.t1s (Witness.shift_row 1 2 r)
+       = shape_of poly_bbox Witness.c1 Witness.t1 r /\
+     bkg_of Witness.t1s (Witness.shift_row 1 2 r) = bkg_of Witness.t1 r /\
+     forall y x, poly_ev 2 (rstate (with_shape Witness.c1 7 9) Witness.t1s (Witness.shift_row 1 2 r)) (y + 1) (x + 2)
+                 = poly_ev 2 (rstate Witness.c1 Witness.t1 r) y x.
+Proof.
+  intros r Hin. cbn in Hin. destruct Hin as [<-|[<-|[]]].
+  - repeat split; try (vm_compute; reflexivity). apply poly_ev_shift; vm_compute; reflexivity.
+  - repeat split; try (vm_compute; reflexivity). apply poly_ev_shift; vm_compute; reflexivity.
+Qed.
